@@ -115,7 +115,7 @@ def observe(c):
                         V("chol_product", f"L L^H differs from the matrix: max abs error {err:.3g}")
                     if root_kind in ("Kronecker", "BlockDiag", "Identity", "Diagonal", "ScalarMul"):
                         got, exp = structure_of(L), expected_structure(t, "L")
-                        if got[0] != exp[0] or (got[0] in ("Kronecker", "BlockDiag") and len(got) != len(exp)):
+                        if got[0] != exp[0]:
                             V("chol_structure", f"cholesky({root_kind}) returned {got}, expected factor-wise {exp}",
                               got=str(got))
             except Exception as e:  # noqa: BLE001
@@ -146,7 +146,7 @@ def observe(c):
                     if root_kind in ("Kronecker", "BlockDiag"):
                         for nm, fac in (("P", P), ("L", L), ("U", U)):
                             got = structure_of(fac)
-                            if got[0] != root_kind or len(got) != 1 + len(t["a"] if t["k"] != "Annot" else t["a"][0]["a"]):
+                            if got[0] != root_kind:      # (a regrouping of the parts is still factor-wise)
                                 V("plu_structure", f"plu({root_kind}).{nm} returned {got}, expected factor-wise", factor=nm,
                                   got=str(got))
             except Exception as e:  # noqa: BLE001
